@@ -1,6 +1,7 @@
 import Drv.C05
 import Drv.C14
 import Drv.C17
+import Drv.C20
 /- Line protocol driver: one command per line in, one line out. -/
 open Drv
 
@@ -12,6 +13,7 @@ def dispatch (line : String) : String :=
   | "c14.run" :: args => C14.cmdRun args
   | "c17.enc" :: args => C17.cmdEnc args
   | "c17.dec" :: args => C17.cmdDec args
+  | "c20" :: args => C20.cmd args
   | "ping" :: _ => "pong"
   | _ => "bad-op"
 
